@@ -167,13 +167,19 @@ class StoreRun:
             done.set()
         th = threading.Thread(target=adder, daemon=True)
 
-        def wrapped(blocks):
+        aid = lambda b: abstract_block(self.w, b)["id"]
+        buffer0 = [aid(b) for b in self.buffered]
+        disk0 = sorted(aid(b) for b in self.written.values())
+        during = []
+
+        def wrapped_probe(blocks):
             if not started:
                 started.append(1)
                 th.start()
                 done.wait(wait)
+                during.append(done.is_set())
             return orig(blocks)
-        store.write_blocks_to_disk = wrapped
+        store.write_blocks_to_disk = wrapped_probe
         try:
             ok = self.flush()
         finally:
@@ -186,7 +192,29 @@ class StoreRun:
         self.buffered.append(block)
         self.mem = self.mem.add_block_no_validation(block)
         self.events.append({"op": "buffer", "blk": abstract_block(self.w, block)})
-        return ok and self.flush()
+        ok2 = self.flush()
+        # the observed order of StoreLock actions (writer 1 = this thread, writer 2 = the second thread)
+        x = aid(block)
+        fl = [{"a": a, "w": 1, "b": 0} for a in ("acquire", "write", "clear", "release")]
+        add = {"a": "add", "w": 2, "b": x}
+        if not buffer0:
+            evs = [add] + fl                     # nothing to write: the first flush did not reach its disk write
+        elif during and during[0]:
+            evs = [fl[0], add] + fl[1:] + fl     # the hand-over completed while the first flush was inside its disk write
+        else:
+            evs = fl + [add] + fl
+        try:      # the chain table's rows through a fresh connection (independent of how blocks are reassembled from the other tables)
+            import sqlite3
+            con = sqlite3.connect(self.path)
+            hashes = [r[0] for r in con.execute("select block_hash from chain")]
+            con.close()
+            disk_end = sorted(self.w.balias(bytes(h)) for h in hashes)
+        except Exception:
+            disk_end = [-1]
+        if not hasattr(self, "lock_traces"):
+            self.lock_traces = []
+        self.lock_traces.append({"buffer0": buffer0, "disk0": disk0, "events": evs, "disk_end": disk_end})
+        return ok and ok2
 
     def trace(self, tid):
         return {"id": tid, "genesis": abstract_block(self.w, self.genesis), "events": self.events}
